@@ -1284,12 +1284,67 @@ class Analysis:
                                          detail="bound present but weaker than needed by %d bytes against %s" % (slack, label)))
             return
         if slack is not None:
-            self.obligations.append(dict(pos=pos, ln=ln, kind=rw, status="alarm", buf=label, what=what or key(node),
-                                         detail="address is only known to stay within %d byte(s) past the end of %s "
-                                                "(bound present but insufficient)" % (slack, label)))
+            # "short by one" alone can be the analysis' own imprecision.  It is reported only with a second piece of evidence:
+            #  (A) the state entails that the access *does* end past the buffer whenever it is reached, or
+            #  (B) some comparison of the function that holds here, tightened by one, makes the access provably safe
+            #      (the off-by-one sits in that comparison).
+            hi_lin = None
+            for (b, size, lab2) in self.buffers:
+                if lab2 == label:
+                    hi_lin = atom(b).add(size)
+            why = None
+            if hi_lin is not None:
+                need = end.add(hi_lin, -1)                      # need <= 0 for safety
+                if st.entails(need.scale(-1).plus(1)):           # need >= 1 always
+                    why = "every execution reaching this access ends %d byte(s) past %s" % (slack, label)
+                else:
+                    why = self._flip_witness(st, need)
+            if why:
+                self.obligations.append(dict(pos=pos, ln=ln, kind=rw, status="alarm", buf=label, what=what or key(node),
+                                             detail="address is only known to stay within %d byte(s) past the end of %s "
+                                                    "(bound present but insufficient): %s" % (slack, label, why)))
+            else:
+                self.obligations.append(dict(pos=pos, ln=ln, kind=rw, status="undecided", buf=label, what=what or key(node),
+                                             detail="bound short by %d byte(s) against %s, but no comparison of the function, tightened by "
+                                                    "one, would make it sufficient (likely imprecision)" % (slack, label)))
         else:
             self.obligations.append(dict(pos=pos, ln=ln, kind=rw, status="undecided", buf=label, what=what or key(node),
                                          detail="no bound derivable (lower %s, upper %s) against %s" % (lo_ok, hi_ok, label)))
+
+    def _flip_witness(self, st, need):
+        """a comparison of the function that holds in st and, strengthened by one, makes `need <= 0` entailed"""
+        if getattr(self, "_cmp_cache", None) is None:
+            self._cmp_cache = []
+            for bid in self.fn.reachable_blocks():
+                c = self.fn.blocks[bid].cond
+                if c is None:
+                    continue
+                for n, ps in walk(c):
+                    if n.get("k") == "bin" and n["op"] in ("<", ">", "<=", ">="):
+                        self._cmp_cache.append(n)
+        for n in self._cmp_cache:
+            x = self.lin(n["x"], st)
+            y = self.lin(n["y"], st)
+            if x is None or y is None:
+                continue
+            d = x.add(y, -1)
+            if not d.t or any(self.info.is_mem(a) for a in d.t):
+                continue
+            for g in (d, d.scale(-1)):
+                if not st.entails(g):
+                    continue
+                for k_ in (0, 1, 2, 3):
+                    if st.entails(g.plus(k_)) and not st.entails(g.plus(k_ + 1)):
+                        st2 = st.copy()
+                        st2.add(g.plus(k_ + 1))
+                        if st2.entails(Lin({}, 1)):
+                            break                   # the tightened comparison contradicts the state: no evidence
+                        if not (set(g.t) & set(need.t)):
+                            break                   # a comparison about other quantities
+                        if st2.entails(need):
+                            return "the comparison at line %s, tightened by one, would make it safe" % n.get("ln")
+                        break
+        return None
 
     def _related(self, st, addr, base):
         """does the address mention the buffer base, or a variable related to it by a constraint?"""
